@@ -428,8 +428,9 @@ static dt_ymcw_t
 __ymcw_add_b(dt_ymcw_t d, int n)
 {
 /* add N business days to D */
-#if 0
-/* trivial trait, reduce to _add_d() problem and dispatch */
+#if 1
+/* trivial trait, reduce to _add_d() problem and dispatch,
+ * the closed form below goes astray when D is on a weekend */
 	dt_dow_t wd = __ymcw_get_wday(d);
 	return __ymcw_add_d(d, __get_d_equiv(wd, n));
 #else
